@@ -13,6 +13,7 @@ import IQE.Lemmas.WindowFrames
 import IQE.Lemmas.WindowFuncs
 import IQE.Lemmas.WindowPeers
 import IQE.Lemmas.KeyOrder
+import IQE.Lemmas.WindowNtile
 namespace IQE.Props.C26
 open IQE IQE.Spec IQE.Engine.Window
 open IQE.Lemmas.WindowFrames IQE.Lemmas.WindowFuncs IQE.Lemmas.WindowPeers IQE.Lemmas.KeyOrder IQE.Lemmas.Sorting
@@ -66,6 +67,14 @@ theorem C26_peerEq_is_tie (flags : List (Bool × Bool)) (a b : SRow) (hpk : a.pk
     that is increasing in the order (whatever order the sort gave to peers: that choice is the relation K allows). -/
 theorem C26_row_number (ps m : Nat) : (List.range' ps m).map (fun i => i - ps + 1) = List.range' 1 m :=
   row_numbers ps m
+
+/-- NTILE(b): for every position `p` of a partition of `n` rows the engine's closed formula (`size = n / b`, `rem = n % b`,
+    `big = rem·(size+1)`: `p+1` if `size = 0`, `p/(size+1)+1` if `p < big`, else `rem + (p−big)/size + 1`) is the bucket the
+    declarative definition assigns: the first `n % b` buckets hold `n / b + 1` rows, the others `n / b`. -/
+theorem C26_ntile (n b p : Nat) (hb : 0 < b) (hp : p < n) :
+    (Win.ntileBuckets n b).getD p 0 =
+      (if n / b == 0 then p + 1 else if p < n % b * (n / b + 1) then p / (n / b + 1) + 1 else n % b + (p - n % b * (n / b + 1)) / (n / b) + 1) :=
+  IQE.Lemmas.WindowNtile.ntile_eq n b p hb hp
 
 /-! ### frames -/
 
